@@ -237,6 +237,16 @@ func checkC16(t testing.TB, c C16Case) (key, what string) {
 	if err != nil {
 		return "fromperl-error", fmt.Sprintf("FromPerl failed: %v", err)
 	}
+	// a function that has been generated stays what it is: converting another
+	// script afterwards (as for every file of a Ctrl+I directory) must not
+	// change it
+	snapshot := bytes.Clone(out)
+	if _, err := shellfuncsfile.FromPerl("another_script.pl", strings.NewReader("#!/usr/bin/env perl\n# Another script, converted right after the one under test.\nprint \"another \" x 40, \"\\n\";\nexit 0;\n")); err != nil {
+		return "fromperl-error", fmt.Sprintf("FromPerl failed on the canned second script: %v", err)
+	}
+	if !bytes.Equal(out, snapshot) {
+		return "result-changed-by-later-conversion", fmt.Sprintf("the function generated for %q changed when another script was converted afterwards (first difference at byte %d of %d)", c.FileName, firstDiffB(out, snapshot), len(snapshot))
+	}
 	name := funcName(c.FileName)
 	wantPerl, leadRun := refClean(src)
 
@@ -627,4 +637,14 @@ func TestC16KnownEndSection(t *testing.T) {
 	} else if k != "" {
 		t.Fatal(c16.Violation("TestC16", k, w, c, nil))
 	}
+}
+
+func firstDiffB(a, b []byte) int {
+	n := min(len(a), len(b))
+	for i := 0; i < n; i++ {
+		if a[i] != b[i] {
+			return i
+		}
+	}
+	return n
 }
